@@ -38,14 +38,19 @@ type verifC01Cfg struct {
 	Debug     bool     `json:"debug"`
 }
 
-// verifC01Idle reports whether the goroutine running watchBackend is parked in a select.
+// verifC01Idle reports whether the goroutine running watchBackend is parked in the select of watchBackend
+// itself: its state is "select" and its innermost frame is main.watchBackend (a select further down, e.g. in
+// an HTTP round trip started by registry.Default.Register, is the loop still working on an event).
 func verifC01Idle() bool {
 	buf := make([]byte, 1<<20)
 	buf = buf[:runtime.Stack(buf, true)]
 	for _, g := range strings.Split(string(buf), "\n\n") {
-		if strings.Contains(g, "main.watchBackend(") {
-			return strings.HasPrefix(g, "goroutine ") && strings.Contains(strings.SplitN(g, "\n", 2)[0], "[select")
+		if !strings.Contains(g, "main.watchBackend(") {
+			continue
 		}
+		lines := strings.SplitN(g, "\n", 3)
+		return len(lines) >= 2 && strings.HasPrefix(lines[0], "goroutine ") && strings.Contains(lines[0], "[select") &&
+			strings.HasPrefix(lines[1], "main.watchBackend(")
 	}
 	return false
 }
